@@ -67,9 +67,18 @@ impl Key {
     }
 
     pub fn to_rel_link_url(&self, relative_to: &str) -> String {
-        RelativePath::new(relative_to)
+        let url = RelativePath::new(relative_to)
             .relative(self.relative_path.to_string())
-            .to_string()
+            .to_string();
+
+        // a note named like the directory of the linking note, an empty url would not be a link
+        if url.is_empty() {
+            if let Some(name) = RelativePath::new(self.relative_path.as_str()).file_name() {
+                return format!("../{}", name);
+            }
+        }
+
+        url
     }
 
     pub fn to_library_url(&self) -> String {
